@@ -94,9 +94,9 @@ PROPS = {
         "real": OBJ_REAL, "stub": OBJ_STUB, "assumptions": OBJ_ASSUME,
     },
     "C02": {
-        "jobs": [OBJ_CALLS],
+        "jobs": [OBJ_CALLS, OBJ_MIXED],
         "accept": lambda job, cls, site, msg: cls in ("obj.args_altered", "obj.address_mismatch")
-        or (cls == "obj.result_mismatch" and (site.startswith(("s_", "r_", "ir_", "ira_")) or "::s_" in site or "::r_" in site or "::ir" in site)),
+        or (cls == "obj.result_mismatch" and (site.startswith(("s_", "r_", "ir_", "ira_", "irm_", "m_res", "m_try")) or "::s_" in site or "::r_" in site or "::ir" in site or "::m_res" in site or "::m_try" in site)),
         "real": OBJ_REAL, "stub": OBJ_STUB, "assumptions": OBJ_ASSUME + ["honest caveat (DESIGN.md section 3/C02): this property is about values; it is claimed because the call histories carry every auto-wrapped shape across the boundary with stateful callee-side digests and address logs"],
     },
     "C06": {
@@ -117,7 +117,8 @@ PROPS = {
     },
     "C13": {
         "jobs": [OBJ_INTRES, INTRES],
-        "accept": lambda job, cls, site, msg: (cls in ("obj.result_mismatch", "obj.args_altered", "obj.call_count") and ("ir_" in site or "ira_" in site or "m_res" in site)) or cls.startswith("intres.") or job == "intres",
+        "accept": lambda job, cls, site, msg: (cls in ("obj.result_mismatch", "obj.args_altered", "obj.call_count") and ("ir_" in site or "ira_" in site or "m_res" in site)) or cls.startswith("intres.") or job == "intres" or (job == "obj-intres" and (cls.startswith("crash.") or cls == "obj.panic"))
+        or (cls in ("obj.result_mismatch", "obj.args_altered", "obj.call_count") and ("irm_" in site or "fmt" in site)),
         "real": OBJ_REAL + ["cglue::result (IntError impls, into_int_out_result, from_int_result)"], "stub": OBJ_STUB, "assumptions": OBJ_ASSUME,
     },
 }
